@@ -79,16 +79,19 @@ package util
 //@   requires dir != nil
 //@   modifies fexists, fsize, fcontent, fdname, lasttmpname
 //@   ensures[success-means-complete] result == nil ==> complete(key(filename), data)
+//@   ensures[every-descriptor-opened-is-closed] nopenfd == old(nopenfd)
 //@   crashinv[never-a-partial-file-under-the-final-name] !fexists[key(filename)] || fsize[key(filename)] == 0 || complete(key(filename), data) || (old(fexists[key(filename)]) && fsize[key(filename)] == old(fsize[key(filename)]))
 
 //@ func ReadFileAt(dir *os.File, filename string) ([]byte, error)
 //@   property C04 C03
 //@   requires dir != nil
 //@   modifies fdname
+//@   ensures[every-descriptor-opened-is-closed] nopenfd == old(nopenfd)
 //@   ensures[reads-what-is-on-disk] result.1 == nil ==> result.0 != nil && fexists[key(filename)] && len(result.0) <= fsize[key(filename)] && forall i int :: 0 <= i && i < len(result.0) ==> result.0[i] == fcontent[key(filename)][i]
 
 //@ func StatFileAt(dir *os.File, filename string) (unix.Stat_t, error)
 //@   property C03
+//@   flag counted
 //@   requires dir != nil
 //@   ensures result.1 == nil ==> fexists[key(filename)] && result.0.Size == fsize[key(filename)] && result.0.Size >= 0
 
